@@ -56,7 +56,20 @@ type lcReq struct {
 }
 
 type lcBehaviour struct {
-	Reqs []lcReq `json:"reqs"`
+	Defined []string `json:"defined"` // lifecycle subroutines the program defines (nil = all)
+	Reqs    []lcReq  `json:"reqs"`
+}
+
+func (b lcBehaviour) defines(s string) bool {
+	if b.Defined == nil {
+		return true
+	}
+	for _, d := range b.Defined {
+		if d == s {
+			return true
+		}
+	}
+	return false
 }
 
 // observed request, the event record of LifecycleTrace.tla
@@ -123,7 +136,10 @@ func lcProgram(b lcBehaviour, backend string, style func(k int) int) string {
 	sb.WriteString("ratecounter rc {}\npenaltybox pb {}\n")
 	k := 0
 	for _, s := range lcSubs {
-		fmt.Fprintf(&sb, "sub vcl_%s {\n  log \"%s\";\n", s, s)
+		if !b.defines(s) {
+			continue // an absent subroutine takes its default action and leaves no flow entry
+		}
+		fmt.Fprintf(&sb, "sub vcl_%s {\n  log \"s:%s:\" req.restarts;\n", s, s)
 		if s == "hit" {
 			// ctx.ObjectTTL survives a restart; reset it so that only this visit's "expire" arm shortens a lifetime
 			sb.WriteString("  set obj.ttl = 0s;\n")
@@ -293,7 +309,7 @@ func c06Replay(args []string) int {
 		for k, r := range b.Reqs {
 			// cache key -> (URL, X-Vary): either distinct URLs or one URL told apart by the header vcl_hash adds
 			path, vary := r.URL, ""
-			if !*plain && (seed+int64(n))%2 == 1 {
+			if !*plain && b.defines("hash") && (seed+int64(n))%2 == 1 {
 				path, vary = "k", r.URL
 			}
 			hash, known := hashes[r.URL]
@@ -322,18 +338,29 @@ func c06Replay(args []string) int {
 				got = []string{}
 			}
 			o.Flows = got
-			// behaviour chosen for each observed flow entry
-			rc := 0
+			// behaviour chosen for each observed flow entry: every subroutine logs "s:<name>:<req.restarts>" first, so
+			// the restart count of each entry is known even when vcl_recv is absent
+			var visits [][2]string
+			for _, lg := range rep.Logs {
+				if strings.HasPrefix(lg.Message, "s:") {
+					p := strings.SplitN(lg.Message, ":", 3)
+					if len(p) == 3 {
+						visits = append(visits, [2]string{p[1], p[2]})
+					}
+				}
+			}
 			o.Acts = []string{}
 			for i, s := range got {
-				if s == "recv" && i > 0 {
-					rc++
-				}
 				act := "none"
-				for _, c := range r.Prog {
-					if c.Sub == s && c.At == rc {
-						act = c.Beh
+				if i < len(visits) && visits[i][0] == s {
+					at, _ := strconv.Atoi(visits[i][1])
+					for _, c := range r.Prog {
+						if c.Sub == s && c.At == at {
+							act = c.Beh
+						}
 					}
+				} else {
+					res.Drift = append(res.Drift, map[string]any{"obs": "visit-log", "req": k + 1, "flow": s})
 				}
 				o.Acts = append(o.Acts, act)
 			}
@@ -350,7 +377,7 @@ func c06Replay(args []string) int {
 					}
 				}
 			}
-			if o.Seen != r.Seen {
+			if o.Seen != r.Seen && b.defines("recv") {
 				res.Drift = append(res.Drift, map[string]any{"obs": "seen", "req": k + 1, "expected": r.Seen, "got": o.Seen})
 			}
 			o.Restarts = rep.Restarts
